@@ -526,6 +526,10 @@ pub fn program_set(set: &str) -> Vec<Program<WatchFam>> {
     // one sender, one receiver; main holds either side or neither
     for a in &txs {
         for b in &rxs {
+            if thorough && a.len() + b.len() == max2 + 1 {
+                // one more operation where main holds the sending side (two tasks only)
+                out.push(Program::fork_join(WCfg { tx_threads: vec![0], rx_threads: vec![1] }, assign_values(0, a), vec![b.clone()]));
+            }
             if a.len() + b.len() > max2 {
                 continue;
             }
